@@ -32,8 +32,12 @@ Definition p_c0 (i : instr) := match i with IClaim 1 | IClaim 2 => false | IClai
 Definition p_c1 (i : instr) := match i with IClaim 1 => true | _ => false end.
 Definition p_c2 (i : instr) := match i with IClaim 2 => true | _ => false end.
 Definition p_cvA (i : instr) := match i with ICvClaim => true | _ => false end.
-Definition p_cvB (i : instr) := match i with ICvReady _ => true | _ => false end.
-Definition p_cvC (i : instr) := match i with ICvSet _ _ => true | _ => false end.
+Definition p_cvB (i : instr) := match i with ICvReady => true | _ => false end.
+Definition p_cvC (i : instr) := match i with ICvSet _ => true | _ => false end.
+Definition p_cvP (i : instr) := match i with ICvPark _ => true | _ => false end.
+Definition p_cvD (i : instr) := match i with ICvDtor => true | _ => false end.
+Definition p_ow (i : instr) := match i with IOWait => true | _ => false end.
+Definition p_oc (i : instr) := match i with IOClaim => true | _ => false end.
 Definition p_cvR (i : instr) := match i with ICvResolve => true | _ => false end.
 Definition p_cvW (i : instr) := match i with ICvWalk => true | _ => false end.
 Definition p_otk (i : instr) := match i with IOReady | IOSub _ | ICvWalk => true | _ => false end.
@@ -53,24 +57,24 @@ Proof. destruct a; cbn; auto using Z.eqb_refl. Qed.
    (x = what the converter must hand to the outer promise) *)
 Definition p_bad (x : outcome) (i : instr) : bool :=
   match i with
-  | ICvReady g => negb g
-  | ICvSet g r => negb g || negb (outcome_eqb r x)
+  | ICvSet r | ICvPark r => negb (outcome_eqb r x)
   | _ => false
   end.
 
-Lemma cnt_bad_le x l : cnt (p_bad x) l <= cnt p_cvB l + cnt p_cvC l.
+Lemma cnt_bad_le x l : cnt (p_bad x) l <= cnt p_cvC l + cnt p_cvP l.
 Proof.
   induction l as [|i l IH]; cbn [cnt]; [lia|].
-  destruct i; cbn [p_bad p_cvB p_cvC]; try lia.
-  - destruct (negb got); lia.
-  - destruct (negb got || negb (outcome_eqb r x)); lia.
+  destruct i; cbn [p_bad p_cvC p_cvP]; try lia; destruct (negb (outcome_eqb r x)); lia.
 Qed.
 
 Definition rdy (sl : slotv) : nat := match sl with SReady => 1 | _ => 0 end.
 Definition sub (sl : slotv) : nat := match sl with SSub => 1 | _ => 0 end.
 Definition b2n (b : bool) : nat := if b then 1 else 0.
+Definition on (o : option outcome) : nat := match o with None => 0 | Some _ => 1 end.
 Definition rn (r : option bool) : nat := match r with None => 0 | Some _ => 1 end.
 Definition has_k2 (c : cfg) : bool := match c_k2 c with Some _ => true | None => false end.
+(* the converter forwards the promise to thread 2 *)
+Definition rp (c : cfg) : bool := is_conv c && Nat.eqb (c_cb c) 4.
 Definition isv (o : outcome) : bool := match o with OVal _ => true | _ => false end.
 Definition hb (c : cfg) : nat := b2n (has_helper (c_ad c)).
 Definition cv (c : cfg) : nat := b2n (is_conv c).
@@ -101,9 +105,26 @@ Record Inv (c : cfg) (s : st) : Prop := {
   i_alloc : allocs s = hb c;
   i_free : frees s + N p_rel s = hb c * nfire s;
   (* converter *)
-  i_stage : N p_cvA s + N p_cvB s + N p_cvC s + N p_cvR s + nores s = cv c * nfire s;
+  i_stage : N p_cvA s + N p_cvB s + N p_cvC s + N p_cvP s + N p_cvD s <= cv c * nfire s;
   i_oprom : b2n (oprom s) + cv c * nfire s = cv c + N p_cvA s;
+  (* the outer promise is in exactly one place: parked in the adapter, in the resume function's local p, in the
+     converter's holder, on its way through resolve, or consumed *)
+  i_tok : b2n (oprom s) + b2n (pheld s) + on (oheld s) + N p_cvR s + nores s = cv c;
+  i_ph : b2n (pheld s) <= N p_cvB s + N p_cvC s + N p_cvP s + N p_cvD s;
+  i_phB : N p_cvB s + N p_cvC s + N p_cvP s <= b2n (pheld s);
+  (* the late resolver (thread 2) exists only for a forwarding converter and stays until the promise is consumed *)
+  i_owc : N p_ow s + N p_oc s <= b2n (rp c);
+  i_p4 : N p_cvP s <= b2n (rp c);
+  i_rp : b2n (oprom s) + b2n (pheld s) + on (oheld s) + b2n (rp c) <= N p_ow s + N p_oc s + 1;
+  i_oht : on (oheld s) <= N p_ow s + N p_oc s;
+  i_occ : N p_oc s <= on (oheld s);
   i_bad : N (p_bad (expected c s)) s = 0;
+  i_oh : match oheld s with Some r => r = expected c s | None => True end;
+  i_op0 : b2n (oprom s) + b2n (pheld s) + on (oheld s) >= 1 -> opayload s = ONone;
+  i_dec : pheld s = true -> N p_cvD s >= 1 -> expected c s = ONone;
+  i_ow0 : cnt p_ow (th0 s) = 0;
+  i_ow1 : cnt p_ow (th1 s) = 0;
+  i_ow2 : th2 s = [IOWait] \/ cnt p_ow (th2 s) = 0;
   i_nores : nores s = rdy (oslot s);
   i_otk : ndeliv s + sub (oslot s) + N p_otk s = cv c;
   i_cvw : N p_cvW s <= nores s;
@@ -141,13 +162,15 @@ Definition LogInv (c : cfg) (s : st) : Prop :=
 (* ---------- the invariant holds initially and is preserved by every step ---------- *)
 Lemma inv_init c : valid c = true -> Inv c (init c).
 Proof.
-  destruct c as [ad mode stor k k2 ct cd]. unfold valid. cbn [c_mode c_stor c_ad c_k2 is_mk].
+  destruct c as [ad mode stor k k2 cb cd]. unfold valid, init, rp, is_mts, is_mk, is_conv, is_mode, reg_prog, mk_prog, res_prog, is_mts.
+  cbn [c_mode c_stor c_ad c_k2 c_cb c_k].
   intros V.
   destruct mode as [|[|[|[|m]]]]; try (cbn in V; rewrite ?andb_false_r in V; discriminate);
   destruct ad; try (cbn in V; rewrite ?andb_false_r in V; discriminate);
-  destruct stor as [|[|[|[|[|st]]]]]; try (cbn in V; rewrite ?andb_false_r in V; discriminate);
   destruct k2 as [kk|]; try (cbn in V; rewrite ?andb_false_r in V; discriminate);
-  destruct k; constructor; cbn; try reflexivity; try lia; try congruence; try discriminate;
+  destruct (Nat.eqb stor 4) eqn:ST; destruct (Nat.eqb cb 4) eqn:CB4;
+  try (cbn in V; rewrite ?CB4, ?andb_false_r in V; cbn in V; rewrite ?andb_false_r in V; discriminate);
+  destruct k; constructor; cbn; rewrite ?CB4, ?ST; cbn; try reflexivity; try lia; try congruence; try discriminate; try exact I;
   try (left; reflexivity); try (right; reflexivity); try (split; discriminate); try (intros; discriminate);
   try (split; [lia|intros; try reflexivity; lia]);
   try (intros; reflexivity); try (intros; right; reflexivity); try (intros; lia); try (intros; congruence).
@@ -161,8 +184,10 @@ Ltac dflags s :=
   | |- context[if owner s then _ else _] => let E := fresh "FO" in destruct (owner s) eqn:E
   | |- context[match slot s with _ => _ end] => let E := fresh "FS" in destruct (slot s) eqn:E
   | |- context[match oslot s with _ => _ end] => let E := fresh "FOS" in destruct (oslot s) eqn:E
-  | |- context[ICvReady (oprom s)] => let E := fresh "FOP" in destruct (oprom s) eqn:E
+  | |- context[if pheld s then _ else _] => let E := fresh "FPH" in destruct (pheld s) eqn:E
+  | |- context[match oheld s with _ => _ end] => let E := fresh "FOH" in destruct (oheld s) eqn:E
   | |- context[match c_ad ?c with _ => _ end] => let E := fresh "AD" in destruct (c_ad c) eqn:E
+  | |- context[match c_cb ?c with _ => _ end] => let E := fresh "CB" in destruct (c_cb c) as [|[|[|[|[|?]]]]] eqn:E
   | |- context[if Nat.eqb (c_stor ?c) 4 then _ else _] => let E := fresh "MT" in destruct (Nat.eqb (c_stor c) 4) eqn:E
   end.
 
@@ -172,7 +197,7 @@ Ltac dth s := match goal with
        | |- context[th1 s] => destruct (th1 s) as [|ins rest] eqn:T0; [discriminate|]
        | |- context[th2 s] => destruct (th2 s) as [|ins rest] eqn:T0; [discriminate|]
        end.
-Ltac fin0 := try reflexivity; try assumption; try lia; try congruence;
+Ltac fin0 := try reflexivity; try assumption; try exact I; try lia; try congruence;
   try (intros; lia); try (intros; congruence); try (intros; auto; fail);
   try (left; lia); try (right; assumption); try (right; reflexivity); try (left; reflexivity);
   try (split; congruence); try (split; intros; congruence); try (split; intros; lia);
@@ -194,14 +219,24 @@ Ltac fin0 := try reflexivity; try assumption; try lia; try congruence;
                  | first [discriminate H | match goal with H2 : _ -> ret1 _ = None |- _ => rewrite H2 in H by lia end; discriminate H]]
                end]);
   try (intros; contradiction); try (split; intros; [contradiction|discriminate]); try (split; intros; [contradiction|lia]).
-Ltac fin := fin0;
+Ltac finx := fin0;
   try match goal with |- cnt (p_bad ?x) ?a + cnt (p_bad ?x) ?b + cnt (p_bad ?x) ?d = 0 =>
         pose proof (cnt_bad_le x a); pose proof (cnt_bad_le x b); pose proof (cnt_bad_le x d); lia end;
-  try match goal with |- context[if isv ?o then _ else _] => destruct (isv o); fin0 end.
+  try match goal with |- context[if isv ?o then _ else _] => destruct (isv o); fin0 end;
+  try match goal with |- context[match oheld ?s with _ => _ end] => destruct (oheld s); cbn [on] in *; fin0 end.
 
-Ltac red1 := cbn [fst snd thr set_thr push tick set_src set_out set_cnt add_log set_ret owner parked slot payload oprom oslot opayload allocs frees th0 th1 th2 clk ret1 ret2 won nfire nconv ndeliv nores log app].
-Ltac redc := cbn [cnt p_claim p_dtor p_res p_walk p_dtk p_park p_xw p_rel p_c0 p_c1 p_c2 isv rn p_cvA p_cvB p_cvC p_cvR p_cvW p_otk p_bad negb orb andb
+(* most obligations are linear arithmetic over the counters: try that first, the general search only if it fails *)
+Ltac fin :=
+  lazymatch goal with
+  | |- @eq nat _ _ => first [reflexivity | assumption | lia | finx]
+  | |- _ <= _ => first [assumption | lia | finx]
+  | |- _ >= _ => first [assumption | lia | finx]
+  | |- _ => first [assumption | finx]
+  end.
+
+Ltac red1 := cbn [fst snd thr set_thr push tick set_src set_out set_held set_cnt add_log set_ret pheld oheld owner parked slot payload oprom oslot opayload allocs frees th0 th1 th2 clk ret1 ret2 won nfire nconv ndeliv nores log app].
+Ltac redc := cbn [cnt p_claim p_dtor p_res p_walk p_dtk p_park p_xw p_rel p_c0 p_c1 p_c2 isv rn on p_cvA p_cvB p_cvC p_cvP p_cvD p_ow p_oc p_cvR p_cvW p_otk p_bad negb orb andb
                   b2n rdy sub Nat.add has_helper has_functor has_cb is_conv].
-Ltac redch := cbn [cnt p_claim p_dtor p_res p_walk p_dtk p_park p_xw p_rel p_c0 p_c1 p_c2 isv rn p_cvA p_cvB p_cvC p_cvR p_cvW p_otk p_bad negb orb andb
+Ltac redch := cbn [cnt p_claim p_dtor p_res p_walk p_dtk p_park p_xw p_rel p_c0 p_c1 p_c2 isv rn on p_cvA p_cvB p_cvC p_cvP p_cvD p_ow p_oc p_cvR p_cvW p_otk p_bad negb orb andb
                   b2n rdy sub Nat.add] in *|-.
 
